@@ -2,6 +2,7 @@ package simrt
 
 import (
 	"sync"
+	"time"
 	"unsafe"
 )
 
@@ -87,7 +88,7 @@ func (m *Mutex) Unlock() {
 	m.held = false
 	s.unlockState()
 	s.pokeIfDead()
-	Yield(ClassUnlock, "mutex.unlocked")
+	unlockPoint("mutex.unlocked")
 }
 
 //go:norace
@@ -189,7 +190,7 @@ func (m *RWMutex) RUnlock() {
 	}
 	m.readers--
 	s.unlockState()
-	Yield(ClassUnlock, "rwmutex.runlocked")
+	unlockPoint("rwmutex.runlocked")
 }
 
 //go:norace
@@ -283,7 +284,7 @@ func (m *RWMutex) Unlock() {
 	m.waitR = m.waitR[:0]
 	m.wheld = false
 	s.unlockState()
-	Yield(ClassUnlock, "rwmutex.unlocked")
+	unlockPoint("rwmutex.unlocked")
 }
 
 // RLocker mirrors sync.RWMutex.RLocker.
@@ -337,4 +338,32 @@ func (o *Once) Do(f func()) {
 		s.unlockState()
 	}()
 	f()
+}
+
+// unlockPoint is the decision point after a lock release (class ClassUnlock). Besides letting another runnable
+// goroutine overtake, it sometimes holds the releasing goroutine back for a few dozen simulated microseconds:
+// only then can the simulated clock advance, so that a message in flight on the simulated network is delivered
+// and handled "between the unlock and the next statement" - an overtaking that a pure yield cannot produce,
+// because a parked but runnable goroutine keeps the clock from moving. The draw is a logged scheduler decision.
+//
+//go:norace
+func unlockPoint(site string) {
+	s := cur.Load()
+	if s == nil || (s.cfg.Mask&ClassUnlock == 0 && !s.dead.Load()) {
+		return
+	}
+	if s.dead.Load() {
+		Yield(ClassUnlock, site)
+		return
+	}
+	switch s.Draw("unlock.delay", 6) {
+	case 0:
+		Fault("sched.delay_after_unlock")
+		Sleep(60 * time.Microsecond)
+	case 1:
+		Fault("sched.delay_after_unlock")
+		Sleep(2 * time.Millisecond)
+	default:
+		Yield(ClassUnlock, site)
+	}
 }
